@@ -325,6 +325,24 @@ def run(oc, tier, seed):
 
 
 def replay(path):
+    """Re-runs the recorded history (init + ops) on the current tree."""
     payload = json.load(open(path))
-    print(json.dumps(payload, indent=1)[:3000])
-    return 1
+    case = payload.get("case", {})
+    if "ops" not in case or "init" not in case:
+        import sys
+        return lib.replay_by_rerun(sys.modules[__name__], "C06", path)
+    eng = lib.Engine()
+    saved = globals()["gen_history"]
+    globals()["gen_history"] = lambda r, a: (case["init"], case["ops"])
+    try:
+        oc = lib.Outcome("C06")
+        run_history(eng, random.Random(0), oc, True)
+    finally:
+        globals()["gen_history"] = saved
+        eng.close()
+    known, _ = lib.known_findings("C06")
+    triggers = {k["trigger"] for k in known}
+    bad = [f for f in oc.spec_fail if f[3] is None or f[3] not in triggers]
+    print(json.dumps({"history": case["ops"], "failures_not_explained_by_a_known_finding": [f[1] for f in bad][:2],
+                      "model_vs_implementation": [c[2] for c in oc.corr_mismatch][:2]}, indent=1, default=str)[:3000])
+    return 1 if bad or oc.corr_mismatch else 0
